@@ -185,6 +185,77 @@ def roundtrip(sym, shape, label_name, layered, paths_for, n, history=False, shar
     sym.check("second-dump-identical", text2 == text)
 
 
+def edited_roundtrip(sym, shape, label_name, layered, paths_for, n, empty_category=False):
+    """a description that was read from a file is edited through its public attributes - a stored path removed (one entry, or the whole
+    category emptied), another replaced, a new one added, scalar fields changed - and written again: the second file says what the
+    edited object says, nothing of the first file's content survives on its own"""
+    try:
+        ci, objs = build(sym, shape, label_name, layered, paths_for, n)
+        text = ci.dumps()
+    except (ValueError, TypeError):
+        return
+    mid = ComposeInfo()
+    mid.loads(text)
+    sym.cover("loaded")
+    spec = SHAPES[shape]
+    expected = {}
+    for vid, uid, parent, arches, is_lp in spec:
+        v = mid[uid]
+        expected[uid] = dict((field, dict(getattr(v.paths, field))) for field in PATH_FIELDS)
+    edited = None
+    for vid, uid, parent, arches, is_lp in spec:
+        stored = [(f, a) for f in PATH_FIELDS for a in sorted(expected[uid][f])]
+        if not stored:
+            continue
+        v = mid[uid]
+        f0, a0 = stored[0]
+        if empty_category:
+            getattr(v.paths, f0).clear()
+            expected[uid][f0] = {}
+        else:
+            del getattr(v.paths, f0)[a0]
+            del expected[uid][f0][a0]
+        if len(stored) > 1:
+            f1, a1 = stored[-1]
+            new = sym.str("edit_replace_" + vid, 3, minlen=1)
+            getattr(v.paths, f1)[a1] = new
+            expected[uid][f1][a1] = new
+        f2 = [f for f in PATH_FIELDS if not expected[uid][f] and f != f0][0]
+        added = sym.str("edit_add_" + vid, 3, minlen=1)
+        getattr(v.paths, f2)[arches[0]] = added
+        expected[uid][f2][arches[0]] = added
+        v.name = sym.str("edit_name_" + vid, n, minlen=1)
+        edited = uid
+        break
+    if edited is None:
+        return
+    new_respin = sym.int("edit_respin")
+    mid.compose.respin = new_respin
+    new_name = sym.str("edit_r_name", n, minlen=1)
+    mid.release.name = new_name
+    want_name = mid[edited].name
+    try:
+        text2 = mid.dumps()
+    except (ValueError, TypeError):
+        return
+    sym.cover("rewritten")
+    back = ComposeInfo()
+    back.loads(text2)
+    sym.check("edited.compose.respin", back.compose.respin == new_respin)
+    sym.check("edited.release.name", back.release.name == new_name)
+    sym.check("edited.variant.name", back[edited].name == want_name)
+    for vid, uid, parent, arches, is_lp in spec:
+        got = back[uid]
+        for field in PATH_FIELDS:
+            gotmap = getattr(got.paths, field)
+            wantmap = expected[uid][field]
+            sym.check("edited.variant[%s].paths.%s.arches" % (uid, field), sorted(gotmap.keys()) == sorted(wantmap.keys()))
+            for arch in sorted(wantmap):
+                if arch in gotmap:
+                    sym.check("edited.variant[%s].paths.%s[%s]" % (uid, field, arch), sym.same(gotmap[arch], wantmap[arch]))
+    sym.check("edited.second-dump-identical", back.dumps() == text2)
+
+
 def _paths(shape, rot, focus=2):
     """a rotating subset of (category, arch, may be empty) entries per variant, including one foreign arch.
     Focus set: at most `focus` entries per job may be the empty string (each one doubles the number of paths)."""
@@ -226,16 +297,24 @@ def jobs(tier, seed):
                                                           "paths_for": _paths(shape, k + si + ci), "n": 4 if big else 3,
                                                           "history": (si + ci + seed) % 2 == 1, "share": (si + ci + seed) % 3 == 0},
                         "validate_every": 40})
+    # a loaded description edited through its public attributes and written again
+    for si, shape in enumerate(shapes):
+        if big or (si + seed) % 2 == 0:
+            out.append({"harness": "edited_roundtrip", "params": {"shape": shape, "label_name": labels[(k + si) % len(labels)], "layered": si % 3 == 0,
+                                                                 "paths_for": _paths(shape, k + si + 1, focus=0), "n": 3, "empty_category": si % 4 == 0},
+                        "validate_every": 40})
     return out
 
 
 META = {
-    "expected_covers": {"roundtrip": ["written", "reloaded", "rewritten"]},
+    "expected_covers": {"roundtrip": ["written", "reloaded", "rewritten"], "edited_roundtrip": ["loaded", "rewritten"]},
     "assumptions": [
         "JSON text layer replaced by the DocText stub (psx/stubs.py): ordered skeleton + normalised formatting arguments; "
         "contract: stdlib json round-trips str/int/bool/None/list/dict-with-str-keys exactly",
         "in every other job a history precedes the scenario (harness/histories.py): another document of the format is written and read by other objects, and the checked "
         "text is first loaded into an object that is then edited in place",
+        "edited_roundtrip: a loaded description has one stored path removed (or its category emptied), one replaced, one added, a variant name, the release name and the "
+        "respin changed, and is written and read again",
         "forest shapes from the catalogue in harness/C01.py (up to 4 variants, depth 3, dashed top-level UID, layered-product variants, ids re-used at several levels); "
         "ids, UIDs and arch names are concrete, all other fields symbolic",
         "per job a rotating subset of (path category, arch) entries is filled, always including one entry for an arch outside the variant's arch set; "
